@@ -127,7 +127,8 @@ def rule_set_id(ctx, cfg, F, backend):
                 else:
                     ok = False
                     for r in roots:
-                        if r.kind == "call" and strip_generics(r.id) in ("std::ops::Index::index", "<std::vec::Vec<T, A> as std::ops::Index<I>>::index"):
+                        if r.kind == "call" and strip_generics(r.id) in ("std::ops::Index::index", "<std::vec::Vec<T, A> as std::ops::Index<I>>::index", "std::vec::Vec::remove", "std::vec::Vec::swap_remove"):
+                            # (`ids.remove(i)` hands out ids[i] as it takes the member out: the same element)
                             it = sel.term(r.block)
                             base_ok = any(x.kind == "param" and x.id == 1 and x.field_names()[:1] in member_vecs for x in trs.roots_of_operand(it["args"][0])) and \
                                 (r.field_idx()[-1:] in ((), (0,)) or "u64" in sel.local_ty(op_local(idop) or 0))
@@ -147,6 +148,9 @@ def rule_set_id(ctx, cfg, F, backend):
             R.ok("closed member: removed at one index from every vector add() appends to (%s)" % ", ".join(sorted(v[0] for v in member_vecs)), sel.loc(rem[0][0]), cfg)
         else:
             R.violate("%s:parallel-remove" % sel.path, "the parallel vectors are not both removed at the same index (%d removes on %s)" % (len(rem), sorted(map(str, vecs))), sel.path, sel.loc(0), config=cfg)
+
+
+INTERRUPTED_DISCR = 35
 
 
 def _reach_without_poll_error(f, tr, pb):
@@ -299,6 +303,25 @@ def rule_set_unix(ctx, cfg, F):
                 continue
             for s in f.succ(b):
                 for lab in edge_label(f, b, s):
+                    # (std's ErrorKind is foreign to the fact base, its variants appear by discriminant: Interrupted is 35 in the pinned toolchain -- the value the
+                    # reference tree's own `ErrorKind::Interrupted` constant carries)
+                    if lab["kind"] in ("variant", "variant_not") and "ErrorKind" in str(lab.get("adt", "")) and (lab.get("value") == INTERRUPTED_DISCR or INTERRUPTED_DISCR in (lab.get("not") or [])) and \
+                            any(r.kind == "call" and r.id == "std::io::Error::kind" for r in tr.roots_of_place(lab["place"])):
+                        # `matches!(error.kind(), ErrorKind::Interrupted)`: a test of the kind's discriminant
+                        if lab["kind"] == "variant":
+                            found = True
+                            reach = Explorer(f).feasible_blocks(start=s, avoid=[pb])
+                            rets = [x for x in reach if any(st_["s"] == "assign" and st_["lhs"]["l"] == 0 and st_["rv"]["r"] == "agg" and st_["rv"]["kind"].get("variant") == "Err" for st_ in f.stmts(x)) or
+                                    (f.term(x)["t"] == "call" and f.term(x)["dest"]["l"] == 0 and "from_residual" in callee_name(f.term(x)))]
+                            rets = [x for x in rets if not any(rb_ in reach and f.dominates(rb_, x) for rb_, _ in reads)]
+                            rets = [x for x in rets if x not in _reach_without_poll_error(f, tr, pb)]
+                            if rets:
+                                Re.violate("%s:eintr-returns" % f.path, "an interrupted wait (EINTR) can reach a return instead of polling again", f.path, f.loc(b), config=cfg)
+                            elif pb not in f.reachable(s):
+                                Re.violate("%s:eintr-no-retry" % f.path, "an interrupted wait does not lead back to the poll", f.path, f.loc(b), config=cfg)
+                            else:
+                                Re.ok("error kind matched against Interrupted leads back to poll()", f.loc(b), cfg)
+                        continue
                     if lab["kind"] == "callbool" and lab["callee"] in ("std::cmp::PartialEq::ne", "std::cmp::PartialEq::eq", "std::cmp::impls::eq", "std::cmp::impls::ne") or \
                        (lab["kind"] == "callbool" and lab["callee"].endswith("PartialEq>::eq")):
                         args = lab["args"]
